@@ -100,6 +100,7 @@ CHECKS['C08'] = (
     'namesFollowInfo, file_apply_section_eq_std, file_read_dwarf_section_relocated on C11\'s reader). Two boundaries became theorems after repairs: R_*_NONE touches no bytes at any offset (fix efcb092: it used to read '
     'and rewrite 4/8 bytes and failed near the section end), every MIPS64 composite entry is rejected (fix 202f23a: only R_MIPS_64/RELA was checked). Dynamic.get_relocation_tables without WFDynRelocs: '
     'missing DT_*SZ / DT_*ENT / DT_PLTREL, bad entry sizes, unmapped tables each have an exact-outcome theorem (a bare StopIteration for a missing size tag: malformed array, documented boundary). '
+    'The RELR cache _cached_relocations is a refinement theorem over a history model (Model/RelrCache on the generic lazily-built-cache machine Model/SigCache): relr_cache_history_independent (any table, any history of num_relocations / get_relocation(n) incl. negative and out-of-range n, after failed expansions), relr_cache_published_iff, relr_cache_exact (with relr_eq_std); the driver runs the cache model and the harness compares it with one live table object and with _cached_relocations is not None. '
     'Correspondence-only: R_ARM_CALL/BPF recipes (no psABI claim), ill-formed UTF-8 section names, sh_link not a symbol table, COMDAT duplicate names (first section by name wins), truncated short reads.',
     'DESIGN.md §6 C08')
 CHECKS['C03'] = (
@@ -159,6 +160,7 @@ CHECKS['C07'] = (
     'The DIE-decoding interface is discharged with C04\'s end-to-end theorem: debug_info_cus_exact, die_decoding_exact, enumeration_exact_locations_v4_info / _v5_info, parse_from_attribute_info — from the '
     'bytes of .debug_info + .debug_abbrev + the list sections + .debug_addr, hypotheses on the description only (wfForestB, forestResolves: each index designates a slot inside its section). Expressions inside '
     'entries are C12\'s round trip (location_expr_ops_exact). enumeration_exact_ranges_info is partial (no section layout description for ranges: each fetch is the round-trip theorem). '
+    'The unit-block and per-block list enumerations are additionally run INTERLEAVED on a fresh object (iter_cus_il / iter_cus_ex_il: between two advances of the suspended generators the next entry of .debug_info is parsed for the first time and the yielded list is translated) and must equal the plain enumeration, the model and the description. '
     'Correspondence-only: malformed lists, offsets beyond the section, offset-table index out of range, view-pair corner cases outside refsAgree.',
     'DESIGN.md §6 C07')
 CHECKS['C15'] = (
@@ -199,7 +201,7 @@ CHECKS['C04'] = (
     'correspondence of the full DIE model on Lean-encoded forests',
     'Proof of every layer and of their composition: the only hypotheses of the section theorems are the description\'s decidable well-formedness (wfForestB, evaluated by the driver on every case) and '
     'address size in {4, 8}.',
-    'DW_FORM_ref_sig8 to a DWARF 5 type unit in .debug_info: former known finding sig8-v5-type-unit, repaired (fix 6a8fa76) and now a theorem; a signature lookup under a scan that raises is correspondence-only. '
+    'DW_FORM_ref_sig8 to a DWARF 5 type unit in .debug_info: former known finding sig8-v5-type-unit, repaired (fix 6a8fa76) and now a theorem; the signature-map cache _type_units_by_sig is a refinement theorem (sig8_history_independent, sig8_published_iff, ref_sig8_scan_error, sig_scan_types_error_first, sig_scan_info_error: any file, any history of lookups) whose model the driver runs beside the stateless lookups. '
     'Not connected by a theorem: the driver\'s linear section-relative lookup vs C13\'s bisect model of get_CU_containing (each proved against the Spec separately); the cache refinement of _get_cached_DIE is C10\'s subject.',
     'DESIGN.md §6 C04')
 
@@ -226,7 +228,7 @@ CHECKS['C10'] = (
     'ref/pubname refinement and siblings generators are proved; a cache layer (abbreviation tables shared between units, line-program objects, CallFrameInfo entries/_entry_cache) has its own '
     'invariant XInvT and refinement theorems (xanswer_refines, abbrev_table_shared, line_program_exact, cfi_cache_hit_eq_miss for arbitrary section contents). Exploration-only: section/segment/symbol '
     'access beyond the two name maps, stream positions of streams other than .debug_info, sibling-generator handles on the top DIE, CFI entries whose instructions overshoot their length followed by a '
-    'retry (excluded by CfiWF). Known finding lineprogram-define-file-header (get_entries mutates the header; excluded by LPWF). Invalid get_CU_at offsets poison the cache by design (out of scope).',
+    'retry (excluded by CfiWF). Caches built by one complete scan on first use (_type_units_by_sig, RELR _cached_relocations) are covered by the generic machine Model/SigCache: lazy_cache_inv, lazy_cache_answers_independent_of_history, lazy_cache_failed_scan_publishes_nothing here, the instances with the library\'s scans and their correspondence in C04 (sig8_history_independent) and C08 (relr_cache_history_independent). Known finding lineprogram-define-file-header (get_entries mutates the header; excluded by LPWF). Invalid get_CU_at offsets poison the cache by design (out of scope).',
     'DESIGN.md §6 C10')
 
 CHECKS['C11'] = (
